@@ -311,12 +311,25 @@ def generate():
             if len(loops) != 1:
                 raise ShapeError("%s: one while loop expected" % fname)
             res.append(ast.unparse(loops[0].test))
+        t = astlib.module("klongpy/types.py")
+        fn = astlib.find_func(t, "kg_is_true")
+        body = astlib.body_no_doc(fn)
+        if len(body) != 1 or not isinstance(body[0], ast.Return) or [a.arg for a in fn.args.args] != ["q", "backend"]:
+            raise ShapeError("kg_is_true(q, backend): single return expected")
+        res.append(ast.unparse(body[0].value))
         return res
     v, why = astlib.try_flag(while_tests)
-    v = v or ["", ""]
-    out.append("(* the loop tests of eval_adverb_while / eval_adverb_scan_while (Python truth of the evaluated predicate) *)")
+    v = v or ["", "", ""]
+    klong = (v[0] == "kg_is_true(klong.eval(KGCall(a, b, arity=1)), klong._backend)"
+             and v[1] == "kg_is_true(klong.eval(KGCall(a, b, arity=1)), backend)"
+             and v[2] == "not (backend.is_number(q) and q == 0 or is_empty(q))")
+    out.append("(* the loop tests of eval_adverb_while / eval_adverb_scan_while and the body of kg_is_true (types.py) *)")
     out.append("Definition while_test : string := %s.%s" % (_s(v[0]), "" if why is None else "  (* shape not recognised: %s *)" % why))
     out.append("Definition scan_while_test : string := %s." % _s(v[1]))
+    out.append("Definition kg_is_true_body : string := %s." % _s(v[2]))
+    out.append("(* true iff both loops judge the evaluated test by kg_is_true and kg_is_true is the Klong-truth expression; "
+               "false = Python's own truth of the answer (the model then follows that) *)")
+    out.append("Definition while_truth_is_klong : bool := %s." % astlib.coq_bool(klong))
 
     def guard():
         m = astlib.module("klongpy/adverbs.py")
@@ -347,7 +360,8 @@ ATOMS_NUM = [0, 1, 5, -3]
 VECS = [L(), L(5), L(1, 2), L(3, 1, 2), L(4, -2, 7, 1), L(1, 2, 3, 4, 5)]
 MATS = [L(L(1, 2), L(3, 4)), L(L(1, 2, 3)), L(L(5)), L(L(1, 2), L(3, 4), L(5, 7)), L(L(6, 5, 4), L(1, 2, 3)),
         L(L(2), L(3), L(4)), L(L(L(1, 2), L(3, 4)), L(L(5, 6), L(7, 8)))]
-NESTED_NUM = [L(1, L(2, 3)), L(L(1, 2), L(3, 4, 5)), L(L(1), L()), L(1, L(2, L(3, L(4), 5), 6), 7), L(L(1, 2), 3, L(4, L(5)))]
+NESTED_NUM = [L(1, L(2, 3)), L(L(1, 2), L(3, 4, 5)), L(L(1), L()), L(1, L(2, L(3, L(4), 5), 6), 7), L(L(1, 2), 3, L(4, L(5))),
+              L(4, L(1, 2), 0), L(8, L(2), 0), L(4, 0, L(1, 2))]      # object arrays holding a zero: the % guard
 STRS = [S(""), S("a"), S("ab"), S("abc"), S("hello")]
 STRUCT = [["c", "a"], L(S("ab"), S("cd")), L(S("a"), L(1)), L(["c", "a"], ["c", "b"]), L(S("ab"), 1, L(2))]
 DICTS = [["d", [1, 2], [3, 4]], ["d"], ["d", [1, 2]], ["d", [S("k"), L(1, 2)]]]
@@ -677,11 +691,6 @@ def model_vs(m, t):
     return None if norm(m[1]) == t else "model and implementation give different values"
 
 
-def while_truth_known(c, o):
-    """known finding C02-while-list-truth: a While / Scan-While test answered a list or an empty dictionary"""
-    return c["adv"] in ("while", "scanwhile") and any(a[0] == "l" or a == ["d"] for a in o.get("pans", []))
-
-
 def replay_body(c, o, m=None):
     return {"case": c, "text": o.get("text"), "operand": o.get("a"), "text_result": o.get("t"), "expansion_result": o.get("e"),
             "python_verb_calls_text": o.get("tlog"), "expansion_applications": o.get("eapps"), "model": m}
@@ -732,10 +741,6 @@ def run(tier, replay=None):
                     cv = model_vs(m1, o[key + "n"])
                     if cv and not corr:
                         corr = "compiled route, %s: %s" % (how, cv)
-        if prop and while_truth_known(c, o):
-            chk.finding("C02-while-list-truth", prop, replay_body(c, o, m))
-            chk.count("known_finding_cases")
-            prop = None
         if prop:
             props.append((prop, c, o, m))
         if corr:
